@@ -2,6 +2,8 @@ package sess
 
 import (
 	"fmt"
+	"github.com/b2broker/simplefix-go/fix"
+	"github.com/b2broker/simplefix-go/storages/memory"
 	"sort"
 	"testing"
 	"time"
@@ -21,18 +23,20 @@ import (
 
 type C08Case struct {
 	Script
-	N           int      `json:"n"`               // negotiated interval, seconds
-	Periods     int      `json:"periods"`         // horizon in periods
-	LogonAt     int64    `json:"logon_at"`        // initiator: virtual ns at which the peer's Logon arrives
-	Silence     bool     `json:"silence"`         // the peer falls silent once, long enough to be probed
-	N2          int      `json:"n2"`              // acceptor: after the first horizon the peer logs out and on again with this interval (0: no re-logon)
-	Relogon     int      `json:"relogon"`         // index of the second Logon step
-	Asked       int      `json:"asked,omitempty"` // acceptor: the interval the client asked for when the logon callback overrides it with N (0: no override)
-	BadLogouts  int      `json:"bad_logouts,omitempty"`
-	ErrCallback bool     `json:"err_callback,omitempty"`
-	RefuseHB    int      `json:"refuse_hb,omitempty"` // the application handler refuses the k-th unsolicited Heartbeat (0: none): that one is not transmitted; the timer must try again a period later
-	RemoveAt    string   `json:"remove_at,omitempty"` // the application removes its own (accepting, all-types) logging handler right before this send step
-	Refuse      []string `json:"refuse,omitempty"`    // application sends that an application outgoing handler (registered before the session's own) refuses: they are not transmitted, so they must not postpone the heartbeat
+	N             int      `json:"n"`               // negotiated interval, seconds
+	Periods       int      `json:"periods"`         // horizon in periods
+	LogonAt       int64    `json:"logon_at"`        // initiator: virtual ns at which the peer's Logon arrives
+	Silence       bool     `json:"silence"`         // the peer falls silent once, long enough to be probed
+	N2            int      `json:"n2"`              // acceptor: after the first horizon the peer logs out and on again with this interval (0: no re-logon)
+	Relogon       int      `json:"relogon"`         // index of the second Logon step
+	Asked         int      `json:"asked,omitempty"` // acceptor: the interval the client asked for when the logon callback overrides it with N (0: no override)
+	BadLogouts    int      `json:"bad_logouts,omitempty"`
+	HookRegisters bool     `json:"hook_registers,omitempty"` // the application\'s outgoing hook registers a further outgoing hook when the first Heartbeat leaves
+	PriorSends    int      `json:"prior_sends,omitempty"`    // messages an earlier session left in the message store before the application reset both counters (0: fresh stores)
+	ErrCallback   bool     `json:"err_callback,omitempty"`
+	RefuseHB      int      `json:"refuse_hb,omitempty"` // the application handler refuses the k-th unsolicited Heartbeat (0: none): that one is not transmitted; the timer must try again a period later
+	RemoveAt      string   `json:"remove_at,omitempty"` // the application removes its own (accepting, all-types) logging handler right before this send step
+	Refuse        []string `json:"refuse,omitempty"`    // application sends that an application outgoing handler (registered before the session's own) refuses: they are not transmitted, so they must not postpone the heartbeat
 }
 
 var stdIntervals = []int{1, 2, 3, 5, 10, 20, 30, 60}
@@ -217,6 +221,12 @@ func genC08(t *rapid.T) *C08Case {
 			c.RemoveAt = rapid.SampledFrom(sends).Draw(t, "removeAt")
 		}
 	}
+	c.HookRegisters = rapid.IntRange(0, 4).Draw(t, "hookRegisters") == 0
+	if rapid.IntRange(0, 5).Draw(t, "priorDay") == 0 {
+		// the stores were used by an earlier session (a few messages are still in the message store);
+		// the application then started the numbering afresh (ResetSeqNum on both sides)
+		c.PriorSends = rapid.IntRange(1, 8).Draw(t, "priorSends")
+	}
 	return c
 }
 
@@ -224,7 +234,7 @@ func checkC08(c *C08Case, rec *evid.Rec) (vs []pbt.Violation) {
 	var hooks *rig.Hooks
 	var hRef *simplefixgo.DefaultHandler
 	var logID int64
-	if len(c.Refuse) > 0 || c.RefuseHB > 0 || c.RemoveAt != "" {
+	if len(c.Refuse) > 0 || c.RefuseHB > 0 || c.RemoveAt != "" || c.HookRegisters {
 		refuse := map[string]bool{}
 		for _, id := range c.Refuse {
 			refuse[id] = true
@@ -243,6 +253,11 @@ func checkC08(c *C08Case, rec *evid.Rec) (vs []pbt.Violation) {
 				}
 				if typ, _ := ref.Lookup(b, rig.TagMsgType); typ == rig.THeartbeat {
 					if _, solicited := ref.Lookup(b, rig.TagTestReqID); !solicited {
+						if c.HookRegisters && hbSeen == 0 {
+							// the first Heartbeat that leaves makes the application install an audit hook for Heartbeats
+							h.HandleOutgoing(rig.THeartbeat, func(simplefixgo.SendingMessage) bool { return true })
+							log.Add(rig.Event{Kind: "hook-registered-from-a-hook"})
+						}
 						hbSeen++
 						if hbSeen == c.RefuseHB {
 							log.Add(rig.Event{Kind: "heartbeat-refused"})
@@ -270,6 +285,28 @@ func checkC08(c *C08Case, rec *evid.Rec) (vs []pbt.Violation) {
 				return rig.NewApp(st.ID)
 			}
 		}
+	}
+	if c.PriorSends > 0 {
+		inner := memory.NewStorage()
+		pcfg := c.Cfg
+		pcfg.CallbackHB = 0
+		pg := &hgen{cfg: pcfg, inSeq: 1}
+		psteps := []rig.Step{{Op: "in", In: &rig.InMsg{Type: rig.TLogon, Seq: pg.seq(), Fields: []rig.Tok{rig.F(rig.TagEncryptMethod, pcfg.Methods[0]), rig.F(rig.TagHeartBtInt, itoa(c.N)),
+			rig.F(rig.TagUsername, "alice"), rig.F(rig.TagPassword, "secret")}}}}
+		for i := 0; i < c.PriorSends; i++ {
+			psteps = append(psteps, rig.Step{Op: "send", ID: fmt.Sprint("old-", i)})
+		}
+		ptr := rig.RunDirect(outerT, pcfg, psteps, &rig.Hooks{Inner: inner}, c.MaxHB)
+		if ptr.Trouble != "" {
+			return []pbt.Violation{pbt.V("harness", "prior session: %s", ptr.Trouble)}
+		}
+		_ = inner.ResetSeqNum(fix.StorageID{Side: fix.Outgoing})
+		_ = inner.ResetSeqNum(fix.StorageID{Side: fix.Incoming})
+		if hooks == nil {
+			hooks = &rig.Hooks{}
+		}
+		hooks.Inner = inner
+		rec.Hist("stores-reused-after-a-counter-reset")
 	}
 	tr := rig.RunDirect(outerT, c.Cfg, c.Steps, hooks, c.MaxHB)
 	if tr.Trouble != "" {
@@ -357,6 +394,9 @@ func checkC08(c *C08Case, rec *evid.Rec) (vs []pbt.Violation) {
 				vs = append(vs, pbt.V("answer-interval", "the logon callback set HeartBtInt %d (the client asked for %d), the Logon answer carries %q", c.N, c.Asked, got))
 			}
 		}
+	}
+	if c.HookRegisters {
+		rec.Hist("outgoing-hook-registers-a-hook")
 	}
 	if c.ErrCallback {
 		for _, e := range tr.Log.Since(0) {
